@@ -16,3 +16,12 @@ package threshold
 //@   property C02
 //@   uses sets
 //@   ensures exists S V :: (forall y V :: sin(S, y) == exists j int :: 0 <= j && j < len(ids) && box(ids[j]) == y) && result == (scard(S) >= a.t && forall y V :: sin(S, y) ==> sin(sset(a.ps), y))
+
+// Decoder (C12): a decoded structure went through the validating constructor (threshold >= 2), and no input may make
+// the decoder dereference a nil reference. (Known finding D7: serde.UnmarshalCBOR returns a nil DTO
+// without error for the CBOR item null, and the DTO is dereferenced without a test: obligation #nil#1.)
+//@ func (*Threshold).UnmarshalCBOR
+//@   property C12
+//@   opt nilcheck=on
+//@   requires a != nil
+//@   ensures result == nil ==> a.t >= 2
